@@ -40,6 +40,28 @@ def parse_of(v: T.Term, param: T.Term) -> Optional[str]:
     return None
 
 
+def canon_tod(v: Any) -> Any:
+    """tod(X) - tod(Y) == X - Y for X, Y parsed with '%H:%M', where tod(X) = timedelta(hours=X.hour, minutes=X.minute):
+    both values lie on 1900-01-01 and carry no seconds, so the offset from midnight differs from the datetime by the same
+    constant on both sides.  Differences of such offsets are rewritten to differences of the parsed values."""
+    def tod(x: Any) -> Any:
+        if isinstance(x, tuple) and x[:2] == ("app", "datetime.timedelta") and len(x) == 4:
+            kws = {a[1]: a[2] for a in x[2:] if isinstance(a, tuple) and a[:1] == ("kw",)}
+            if set(kws) == {"hours", "minutes"}:
+                h, m = kws["hours"], kws["minutes"]
+                if (isinstance(h, tuple) and h[:1] == ("extmeth",) and h[2] == "hour" and isinstance(m, tuple) and m[:1] == ("extmeth",) and m[2] == "minute" and h[1] == m[1]
+                        and isinstance(h[1], tuple) and h[1][:2] == ("app", "datetime.datetime.strptime") and len(h[1]) == 4 and h[1][3] == c("%H:%M")):
+                    return h[1]
+        return None
+    if isinstance(v, tuple):
+        if v[:2] == ("app", "sub") and len(v) == 4:
+            a, b = tod(v[2]), tod(v[3])
+            if a is not None and b is not None:
+                return ("app", "sub", a, b)
+        return tuple(canon_tod(x) for x in v)
+    return v
+
+
 def lt_guard(g: T.Term) -> Optional[Tuple[T.Term, T.Term, bool]]:
     """cmp atom as (small, big, strict): small < big (strict) or small <= big."""
     if not (isinstance(g, tuple) and g and g[0] == "cmp"):
@@ -83,7 +105,8 @@ def run(prog: Program, rep: Report, tier: str) -> None:
     covered = {"lt": False, "ge": False, "mod": False}
     foreign = 0
     for k, o in enumerate(rets):
-        v = o.value
+        v = canon_tod(o.value)
+        o.state.pc[:] = [canon_tod(g) for g in o.state.pc]
         if T.contains_top(v):
             rep.undecided("R14.1", f"path {k}", where, f"not understood: {T.contains_top(v)}")
             continue
